@@ -1,3 +1,4 @@
 //! Verification harness for gfx-rs/rspirv: calls the real code in-process.
 pub mod glue_enums;
 pub mod util;
+pub mod chan;
